@@ -1,12 +1,52 @@
 package rules
 
 import (
+	"go/types"
 	"go/token"
 
 	"golang.org/x/tools/go/ssa"
 
 	"waspcheck/internal/core"
 )
+
+// theProg is the program under analysis (set by the registry before a property runs); used to follow a parameter to the
+// arguments of its function's static call sites.
+var theProg *core.Prog
+
+// callerArgs returns the arguments bound to parameter p at the module's static call sites of its function (call, go, defer).
+func callerArgs(p *ssa.Parameter) []ssa.Value {
+	if theProg == nil || p.Parent() == nil {
+		return nil
+	}
+	idx := paramIdx(p)
+	var out []ssa.Value
+	for _, site := range theProg.StaticCallers(p.Parent()) {
+		if idx >= 0 && idx < len(site.Common().Args) {
+			out = append(out, site.Common().Args[idx])
+		}
+	}
+	return out
+}
+
+// deepStrip is core.Strip that also follows a parameter of a function with exactly one static call site to the argument passed there (helpers extracted from a single caller).
+func deepStrip(v ssa.Value) ssa.Value {
+	for i := 0; i < 12; i++ {
+		v = core.Strip(v)
+		p, ok := v.(*ssa.Parameter)
+		if !ok {
+			return v
+		}
+		args := callerArgs(p)
+		if len(args) != 1 {
+			return v
+		}
+		v = args[0]
+	}
+	return v
+}
+
+// same: two values denote the same object once conversions, cells, captured variables and single-caller helper parameters are seen through.
+func same(a, b ssa.Value) bool { return deepStrip(a) == deepStrip(b) }
 
 // depReaches reports whether the backward data dependencies of v reach a value
 // satisfying pred. The walk crosses closures through captured variables, goes
@@ -25,6 +65,11 @@ func depReaches(v ssa.Value, pred func(ssa.Value) bool) bool {
 		}
 		switch x := v.(type) {
 		case *ssa.Parameter:
+			for _, a := range callerArgs(x) {
+				if walk(a, d+1) {
+					return true
+				}
+			}
 			return false
 		case *ssa.FreeVar:
 			if b := core.FreeVarBinding(x); b != nil {
@@ -55,6 +100,20 @@ func depReaches(v ssa.Value, pred func(ssa.Value) bool) bool {
 				}
 			}
 			return false
+		}
+		if cv, ok := v.(*ssa.Call); ok {
+			// the result of a module function depends on what it returns
+			if g := cv.Call.StaticCallee(); g != nil && theProg != nil && g.Pkg != nil && theProg.IsModPkg(g.Pkg.Pkg) && !theProg.IsGenerated(g) {
+				for _, b := range g.Blocks {
+					if r, ok := b.Instrs[len(b.Instrs)-1].(*ssa.Return); ok {
+						for _, res := range r.Results {
+							if walk(res, d+1) {
+								return true
+							}
+						}
+					}
+				}
+			}
 		}
 		if in, ok := v.(ssa.Instruction); ok {
 			for _, op := range in.Operands(nil) {
@@ -253,4 +312,56 @@ func (c *Ctx) callsTransitively(fn *ssa.Function, depth int, match func(*core.Ca
 		}
 	}
 	return false
+}
+
+
+// funcsDeep lists fn, the function literals defined in it, and — transitively, depth levels — the module's declared
+// functions they call statically (goroutine starts are not followed): the code that runs as part of a call of fn.
+func (c *Ctx) funcsDeep(fn *ssa.Function, depth int) []*ssa.Function {
+	var out []*ssa.Function
+	seen := map[*ssa.Function]bool{}
+	var walk func(f *ssa.Function, d int)
+	walk = func(f *ssa.Function, d int) {
+		if f == nil || seen[f] || len(f.Blocks) == 0 {
+			return
+		}
+		seen[f] = true
+		out = append(out, f)
+		for _, af := range f.AnonFuncs {
+			walk(af, d)
+		}
+		if d <= 0 {
+			return
+		}
+		for _, cl := range core.CallsIn(f) {
+			if _, isGo := cl.Instr.(*ssa.Go); isGo {
+				continue
+			}
+			if g := cl.Static; g != nil && g.Pkg != nil && c.P.IsModPkg(g.Pkg.Pkg) && !c.P.IsGenerated(g) {
+				walk(g, d-1)
+			}
+		}
+	}
+	walk(fn, depth)
+	return out
+}
+
+// callsDeep lists the calls made by the functions of funcsDeep(fn, depth).
+func (c *Ctx) callsDeep(fn *ssa.Function, depth int) []*core.Call {
+	var out []*core.Call
+	for _, f := range c.funcsDeep(fn, depth) {
+		out = append(out, core.CallsIn(f)...)
+	}
+	return out
+}
+
+// callsToDeep is callsDeep restricted to calls of one of objs.
+func (c *Ctx) callsToDeep(fn *ssa.Function, depth int, objs ...*types.Func) []*core.Call {
+	var out []*core.Call
+	for _, cl := range c.callsDeep(fn, depth) {
+		if cl.Is(objs...) {
+			out = append(out, cl)
+		}
+	}
+	return out
 }
